@@ -556,3 +556,23 @@ CHECKS['C01'].update(text=CHECKS['C01']['text'] + ' T13: a remembered node (a no
 CHECKS['C16'].update(text=CHECKS['C16']['text'] + ' TB19: the query parser trims and splits text while it is still encoded (nothing URL-decoded is '
                      'handed to a routine that interprets blanks). The loop-free interpreter behind the tabulated laws models conversions '
                      'to char-sized types (sign of plain char) and the <ctype.h> classification table.')
+CHECKS['C20'].update(text=CHECKS['C20']['text'] + ' B10: every iteration of the word-splitting loop of the Apache-style parser passes the store '
+                     'argv[argc] = word (no cycle through the loop head avoids it).')
+
+
+# ---- wave-15 extensions -------------------------------------------------------------------------------------------------------
+CHECKS['C04'].update(text=CHECKS['C04']['text'] + ' T11 (wrap of the traversal id handled, and no function but the constructor assigns the '
+                     'reserved id 0 to the table). WID2: a shift-register accumulation v = (v << k) | x in a loop is flushed inside the loop '
+                     'or the loop is bounded by width/k iterations (rotations are not accumulations).')
+CHECKS['C03'].update(text=CHECKS['C03']['text'] + ' No function but the constructor assigns 0 - the mark of unvisited nodes - to the table\'s '
+                     'traversal id.')
+CHECKS['C05'].update(text=CHECKS['C05']['text'] + ' S8: a remembered node of the hash table (a node-pointer field assigned by a lookup) is reset '
+                     'after every event that frees nodes - the tree table\'s T13 over qhashtbl.c; destroying the table itself is exempt.')
+CHECKS['C11'].update(text=CHECKS['C11']['text'] + ' WID2 (shift registers in loops) over the container units.')
+CHECKS['C16'].update(text=CHECKS['C16']['text'] + ' PF1: the argument of a %x/%X/%o/%u conversion in the codec units is not a plain or signed '
+                     'char (format string parsed, arguments matched to conversions).')
+CHECKS['C18'].update(text=CHECKS['C18']['text'] + ' The block-loop framing also understands a counted-down block counter with walking block '
+                     'pointers, a top-level alignment split holding one loop per arm, and memcpy(&word, p, sizeof word) as a load.')
+CHECKS['C02'].update(text=CHECKS['C02']['text'] + ' The symbolic heap also models pointers to link fields (&obj->right, *link = ...) and '
+                     'conditionals on constant flags, so one generic rotate(obj, toleft) with child-link accessors is compared as well.')
+CHECKS['C13'].update(text=CHECKS['C13']['text'] + ' Fields written by static helpers that only constructors call count as written by the constructor.')
